@@ -135,6 +135,10 @@ const (
 	phBurstOut      = "burst-server-to-client"
 	phBurstIn       = "burst-client-to-server"
 	phTwoNS         = "two-namespaces"
+	// the peer sent CONNECT twice for one namespace while the middleware was busy: both are admitted (each
+	// packet is handled on its own goroutine and the socket is registered with the connection only at the
+	// end of the admission), so the connection carries two sockets of one namespace when it ends
+	phTwoConnects = "two-CONNECTs-admitted-for-one-namespace"
 )
 
 func scenario(phase string, cs []cause, bound int) *vx.Scenario {
@@ -150,12 +154,18 @@ func scenario(phase string, cs []cause, bound int) *vx.Scenario {
 		if phase == phTwoNS {
 			nss = []string{"/", "/b"}
 		}
-		w := newWorld(nss, phase == phMiddleware)
+		w := newWorld(nss, phase == phMiddleware || phase == phTwoConnects)
 		f := vrig.NewFakeEIO(w.srv, "c06")
 		switch phase {
 		case phBeforeConnect:
 		case phMiddleware:
 			f.In("0") // CONNECT; the middleware blocks
+			vrig.Settle(time.Second)
+		case phTwoConnects:
+			f.In("0")
+			f.In("0")
+			vrig.Settle(time.Second)
+			vsched.Close(w.gate)
 			vrig.Settle(time.Second)
 		default:
 			for _, ns := range nss {
@@ -340,8 +350,11 @@ func scenarios(tier string) []*vx.Scenario {
 	}
 	var s []*vx.Scenario
 	// every single cause x phase
-	for _, ph := range []string{phBeforeConnect, phMiddleware, phIdle, phBurstOut, phBurstIn, phTwoNS} {
+	for _, ph := range []string{phBeforeConnect, phMiddleware, phIdle, phBurstOut, phBurstIn, phTwoNS, phTwoConnects} {
 		for _, c := range causes {
+			if ph == phTwoConnects && !c.whole {
+				continue // which of the two sockets a namespace-level cause means is not defined
+			}
 			if ph == phBeforeConnect || ph == phMiddleware {
 				// no socket exists yet: socket-level causes do not apply
 				if strings.HasPrefix(c.name, "socket.") || c.name == "client-DISCONNECT-frame" {
